@@ -95,6 +95,9 @@ func c14(r *Report) {
 	}
 
 	r.Guard("C14.R1", "the stack contains the hop-by-hop, forwarded, framing and via modifiers, the same via / hop-by-hop instances on the response side, and the via check runs before user modifiers", func() {
+		// every stack gets a Via modifier of its own (with its own random instance token): NewStack
+		// keeps nothing between calls
+		statelessRule(r, r.W.Fn("httpspec", "NewStack"), map[string]bool{}, "two proxy instances of one process (or one name) share a Via identity: each takes the other's Via entry for its own, skips the round trip and answers 400")
 		reqAdds := plainCalls(ns, "(*M/fifo.Group).AddRequestModifier")
 		resAdds := plainCalls(ns, "(*M/fifo.Group).AddResponseModifier")
 		origin := func(v ssa.Value) string {
@@ -182,6 +185,7 @@ func c14(r *Report) {
 	})
 
 	r.Guard("C14.R2", "the hop-by-hop table covers the RFC 7230 set and both sides delete every table entry and every Connection-listed token", func() {
+		hopByHopMapOnlyRule(r)
 		table, pos := w.stringSliceVar("header", "hopByHopHeaders")
 		want := []string{"Connection", "Keep-Alive", "Proxy-Authenticate", "Proxy-Authorization", "Te", "Trailer", "Transfer-Encoding", "Upgrade"}
 		for _, h := range want {
